@@ -1293,7 +1293,12 @@ func (x *Exec) callStatic(st *State, fr *Frame, resInstr ssa.Instruction, fn *ss
 	return x.opaqueCall(st, fr, resInstr, fn.String(), x.funcValue(fn, nil), "", args, fn.Signature.Results(), isDefer)
 }
 
-var inlineStd = map[string]bool{}
+// small pure standard-library functions that are executed from their source rather than treated as opaque
+var inlineStd = map[string]bool{
+	"(time.Duration).Seconds":      true,
+	"(time.Duration).Milliseconds": true,
+	"(time.Duration).Nanoseconds":  true,
+}
 
 // opaqueCall: the call is an event; results are fresh; may fork a panicking path if declared.
 func (x *Exec) opaqueCall(st *State, fr *Frame, resInstr ssa.Instruction, name string, callee Value, method string, args []Value, results *types.Tuple, isDefer bool) []*State {
